@@ -211,6 +211,7 @@ pub fn observe_graph(
     o.insert("heads".into(), json!(heads));
     o.insert("ca".into(), json!(ca));
     o.insert("chgq".into(), json!(chgq));
+    o.insert("extra".into(), json!(0));
     if let Some(ro) = ro {
         let ix = readonly_index(ro);
         let gens: Vec<Value> = known
@@ -476,7 +477,7 @@ fn pick_cp(rng: &mut Rng, want: Want, opts: &Opts, n_commit_steps: usize) -> (us
         Some("start") => 1,
         Some("mid") => 2,
         Some("end") => 3,
-        _ => 1 + rng.below(3),
+        _ => rng.below(4),
     };
     let at = 1 + rng.below(n_commit_steps.max(1));
     // sometimes only part of the history is (re)indexed
